@@ -159,7 +159,7 @@ theorem processFrame_fields (c : PCfg) (s : PState) (motion : Bool) (f : Faults)
   obtain ⟨a, b, k', hs⟩ := psn_shape c (processConstantRecorder c
     (process c { s with ring := s.ring.write s.n } motion f).1 s.n f).1 s.n f
   rw [hs, hk]
-  exact ⟨h1, rfl⟩
+  exact ⟨h1, trivial⟩
 
 /-! ## the ring invariant along every run -/
 
@@ -220,5 +220,318 @@ theorem trace_fold_inv {μ : Type} (c : PCfg) (stepM : μ → Step → μ) (I : 
     simp only [List.length_cons, PState.after, PState.trace, List.foldl_cons]
     have e1 : k + (es.length + 1) = k + 1 + es.length := by omega
     rw [e1]; exact this
+
+/-! ## C12 — protocol monitor -/
+
+/-- monitor state ↔ model state -/
+def Rel12 (c : PCfg) (s : PState) (m : M12s) : Prop :=
+  m.mo = s.isRec ∧ m.co = (c.constOn && decide (s.crFrames ≠ 0)) ∧ m.te = s.snapRec ∧ m.fails = []
+
+theorem preTrigger_fold12 (fa : Nat) (ids : List Nat) (k : Nat) (m : M12s) (hm : m.mo = true) :
+    (preTrigger fa ids k).1.foldl M12s.obs m = m := by
+  induction ids generalizing k with
+  | nil => rfl
+  | cons id rest ih =>
+    simp only [preTrigger]
+    split
+    · simp [M12s.obs, M12s.get, hm]
+    · simp [M12s.obs, M12s.get, hm, ih]
+
+theorem pDetect_rel12 (c : PCfg) (s : PState) (motion : Bool) (f : Faults) (m : M12s)
+    (hh : s.ring.history ≠ none) (h : Rel12 c s m) :
+    Rel12 c (pDetect c s motion f).1.1 ((pDetect c s motion f).1.2.foldl M12s.obs m) := by
+  obtain ⟨h1, h2, h3, h4⟩ := h
+  unfold pDetect
+  repeat' split
+  all_goals first
+    | contradiction
+    | simp_all [Rel12, M12s.obs, M12s.get, M12s.set, preTrigger_fold12]
+
+theorem pWrite_rel12 (c : PCfg) (id k : Nat) (f : Faults) (s : PState) (m : M12s) (h : Rel12 c s m) :
+    Rel12 c (pWrite id k f s).1 ((pWrite id k f s).2.foldl M12s.obs m) := by
+  obtain ⟨h1, h2, h3, h4⟩ := h
+  unfold pWrite
+  split <;> simp_all [Rel12, M12s.obs, M12s.get]
+
+theorem stopRecording_rel12 (c : PCfg) (s : PState) (ok : Bool) (m : M12s) (h : Rel12 c s m) :
+    Rel12 c (s.stopRecording ok).1 ((s.stopRecording ok).2.foldl M12s.obs m) := by
+  obtain ⟨h1, h2, h3, h4⟩ := h
+  unfold stopRecording
+  split <;> simp_all [Rel12, M12s.obs, M12s.set]
+
+theorem pStop_rel12 (c : PCfg) (f : Faults) (s : PState) (m : M12s) (h : Rel12 c s m) :
+    Rel12 c (pStop f s).1 ((pStop f s).2.foldl M12s.obs m) := by
+  unfold pStop
+  split
+  · exact stopRecording_rel12 c _ _ m h
+  · exact h
+
+theorem process_rel12 (c : PCfg) (s : PState) (motion : Bool) (f : Faults) (m : M12s)
+    (hh : s.ring.history ≠ none) (h : Rel12 c s m) :
+    Rel12 c (process c s motion f).1 ((process c s motion f).2.foldl M12s.obs m) := by
+  rw [process_eq]
+  simp only [andThen_fst, andThen_snd, List.foldl_append]
+  exact pStop_rel12 c f _ _ (pWrite_rel12 c _ _ f _ _ (pDetect_rel12 c s motion f m hh h))
+
+theorem pcr_rel12 (c : PCfg) (s : PState) (id : Nat) (f : Faults) (m : M12s) (h : Rel12 c s m) :
+    Rel12 c (processConstantRecorder c s id f).1 ((processConstantRecorder c s id f).2.foldl M12s.obs m) := by
+  obtain ⟨h1, h2, h3, h4⟩ := h
+  simp only [processConstantRecorder]
+  repeat' split
+  all_goals simp_all [Rel12, M12s.obs, M12s.get, M12s.set]
+
+theorem scr_rel12 (c : PCfg) (s : PState) (f : Faults) (m : M12s) (h : Rel12 c s m) :
+    Rel12 c (stopConstantRecorder c s f).1 ((stopConstantRecorder c s f).2.foldl M12s.obs m) := by
+  obtain ⟨h1, h2, h3, h4⟩ := h
+  simp only [stopConstantRecorder]
+  repeat' split
+  all_goals simp_all [Rel12, M12s.obs, M12s.set]
+
+theorem psn_rel12 (c : PCfg) (s : PState) (id : Nat) (f : Faults) (m : M12s) (h : Rel12 c s m) :
+    Rel12 c (processSnapshot c s id f).1 ((processSnapshot c s id f).2.foldl M12s.obs m) := by
+  obtain ⟨h1, h2, h3, h4⟩ := h
+  simp only [processSnapshot]
+  repeat' split
+  all_goals simp_all [Rel12, M12s.obs, M12s.get, M12s.set]
+
+def Inv12 (c : PCfg) (s : PState) (m : M12s) : Prop := Good c s ∧ Rel12 c s m
+
+theorem inv12_init (c : PCfg) (hK : 0 < c.K) : Inv12 c (PState.init c) {} :=
+  ⟨good_init c hK, by simp [Rel12, PState.init]⟩
+
+theorem step_inv12 (c : PCfg) (s : PState) (m : M12s) (e : Ev) (h : Inv12 c s m) :
+    Inv12 c (PState.step c s e).1 ((PState.step c s e).2.foldl M12s.obs m) := by
+  refine ⟨good_step c s e h.1, ?_⟩
+  obtain ⟨hg, hr⟩ := h
+  cases e with
+  | frame mo f =>
+    simp only [PState.step]
+    rw [processFrame_eq]
+    simp only [andThen_fst, andThen_snd, List.foldl_append]
+    obtain ⟨lo, _, hh⟩ := good_history hg
+    have hh' : ({ s with ring := s.ring.write s.n } : PState).ring.history ≠ none := by
+      simp only [hh]; exact Option.some_ne_none _
+    have hr0 : Rel12 c { s with ring := s.ring.write s.n } m := hr
+    exact psn_rel12 c _ s.n f _ (pcr_rel12 c _ s.n f _ (process_rel12 c _ mo f m hh' hr0))
+  | bad f =>
+    simp only [PState.step, processBad, andThen_fst, andThen_snd, List.foldl_append]
+    have hr0 : Rel12 c { s with ring := s.ring.write garbage } m := hr
+    exact scr_rel12 c _ f _ (stopRecording_rel12 c _ f.mStop m hr0)
+  | reset f => exact stopRecording_rel12 c s f.mStop m hr
+  | testReq => exact hr
+
+theorem c12_protocol_all (c : PCfg) (hK : 0 < c.K) (evs : List Ev) :
+    monC12 (PState.trace c (PState.init c) evs) = [] := by
+  have h := trace_fold_inv c (fun (m : M12s) (st : Step) => st.obs.foldl M12s.obs m)
+    (fun _ s m => Inv12 c s m) (fun _ s m e hi => step_inv12 c s m e hi) evs 0 _ _ (inv12_init c hK)
+  exact h.2.2.2.2
+
+/-! ### C12 recovery -/
+
+theorem pDetect_recover (c : PCfg) (s : PState) :
+    (pDetect c s true {}).1.1.isRec = true ∨
+    (s.isRec = false ∧ s.triggered + 1 < c.trig ∧
+      (pDetect c s true {}).1.1 = { s with triggered := s.triggered + 1 }) := by
+  unfold pDetect
+  repeat' split
+  all_goals simp_all
+
+theorem processFrame_recover (c : PCfg) (s : PState) :
+    Obs.call .motion (.write s.n) true ∈ (processFrame c s true {}).2 ∨
+    (s.triggered + 1 < c.trig ∧ (processFrame c s true {}).1.triggered = s.triggered + 1) := by
+  rw [processFrame_eq, process_eq]
+  simp only [andThen_fst, andThen_snd]
+  rcases pDetect_recover c { s with ring := s.ring.write s.n } with h | ⟨h1, h2, h3⟩
+  · left
+    simp [pWrite, h]
+  · right
+    refine ⟨h2, ?_⟩
+    have hw : ∀ k, pWrite s.n k {} (pDetect c { s with ring := s.ring.write s.n } true {}).1.1
+        = ((pDetect c { s with ring := s.ring.write s.n } true {}).1.1, []) := by
+      intro k; simp [pWrite, h3, h1]
+    rw [hw]
+    have hs : pStop {} (pDetect c { s with ring := s.ring.write s.n } true {}).1.1
+        = ({ (pDetect c { s with ring := s.ring.write s.n } true {}).1.1 with
+              ring := (pDetect c { s with ring := s.ring.write s.n } true {}).1.1.ring.move }, []) := by
+      simp [pStop, h3, h1]
+    simp only [hs]
+    obtain ⟨k, hk⟩ := pcr_shape c ({ (pDetect c { s with ring := s.ring.write s.n } true {}).1.1 with
+              ring := (pDetect c { s with ring := s.ring.write s.n } true {}).1.1.ring.move }) s.n {}
+    obtain ⟨a, b, k', hsn⟩ := psn_shape c (processConstantRecorder c
+      ({ (pDetect c { s with ring := s.ring.write s.n } true {}).1.1 with
+              ring := (pDetect c { s with ring := s.ring.write s.n } true {}).1.1.ring.move }) s.n {}).1 s.n {}
+    rw [hsn, hk, h3]
+
+theorem recover_aux (c : PCfg) : ∀ (n : Nat) (s : PState), 1 ≤ n → c.trig ≤ s.triggered + n →
+    ∃ id, Obs.call .motion (.write id) true ∈
+      (PState.trace c s (List.replicate n (Ev.frame true {}))).flatMap (·.obs) := by
+  intro n
+  induction n with
+  | zero => intro s h; omega
+  | succ n ih =>
+    intro s _ ht
+    simp only [List.replicate_succ, PState.trace, List.flatMap_cons, PState.step]
+    rcases processFrame_recover c s with h | ⟨h1, h2⟩
+    · exact ⟨s.n, List.mem_append_left _ h⟩
+    · obtain ⟨id, hid⟩ := ih (processFrame c s true {}).1 (by omega) (by omega)
+      exact ⟨id, List.mem_append_right _ hid⟩
+
+theorem c12_recovery_all (c : PCfg) (s : PState) :
+    ∃ id, Obs.call .motion (.write id) true ∈
+      (PState.trace c s (List.replicate (max c.trig 1) (Ev.frame true {}))).flatMap (·.obs) :=
+  recover_aux c (max c.trig 1) s (by omega) (by omega)
+
+/-! ## C13 — bad frames -/
+
+theorem hasStop_append (a b : List Obs) : hasStop (a ++ b) = (hasStop a || hasStop b) := by
+  simp [hasStop]
+theorem hasStartOk_append (a b : List Obs) : hasStartOk (a ++ b) = (hasStartOk a || hasStartOk b) := by
+  simp [hasStartOk]
+theorem writesGarbage_append (a b : List Obs) :
+    writesGarbage (a ++ b) = (writesGarbage a || writesGarbage b) := by
+  simp [writesGarbage]
+
+theorem preTrigger_c13 (fa : Nat) (ids : List Nat) (k : Nat) (hids : ∀ id ∈ ids, id ≠ garbage) :
+    hasStop (preTrigger fa ids k).1 = false ∧ hasStartOk (preTrigger fa ids k).1 = false ∧
+    writesGarbage (preTrigger fa ids k).1 = false := by
+  induction ids generalizing k with
+  | nil => simp [preTrigger, hasStop, hasStartOk, writesGarbage]
+  | cons id rest ih =>
+    have h1 : id ≠ garbage := hids id (List.mem_cons_self ..)
+    have h2 := ih (k + 1) (fun i hi => hids i (List.mem_cons_of_mem _ hi))
+    simp only [preTrigger]
+    split
+    · simp [hasStop, hasStartOk, writesGarbage, h1]
+    · simp only [hasStop, hasStartOk, writesGarbage] at h2 ⊢
+      simp [h1, h2]
+
+/-- summary of one piece for C13: no stop / start before-or-after, nothing garbage written -/
+theorem pDetect_c13 (c : PCfg) (s : PState) (motion : Bool) (f : Faults)
+    (hh : ∀ h, s.ring.history = some h → ∀ id ∈ h, id ≠ garbage) :
+    hasStop (pDetect c s motion f).1.2 = false ∧
+    (pDetect c s motion f).1.1.isRec = (s.isRec || hasStartOk (pDetect c s motion f).1.2) ∧
+    writesGarbage (pDetect c s motion f).1.2 = false := by
+  have hp : ∀ h, s.ring.history = some h →
+      hasStop (preTrigger f.mWriteFail h.dropLast 0).1 = false ∧
+      hasStartOk (preTrigger f.mWriteFail h.dropLast 0).1 = false ∧
+      writesGarbage (preTrigger f.mWriteFail h.dropLast 0).1 = false :=
+    fun h heq => preTrigger_c13 f.mWriteFail h.dropLast 0
+      (fun id hid => hh h heq id (List.dropLast_subset h hid))
+  simp only [hasStop, hasStartOk, writesGarbage] at hp ⊢
+  unfold pDetect
+  repeat' split
+  all_goals simp_all
+
+theorem pWrite_c13 (id k : Nat) (f : Faults) (s : PState) (hid : id ≠ garbage) :
+    hasStop (pWrite id k f s).2 = false ∧ hasStartOk (pWrite id k f s).2 = false ∧
+    writesGarbage (pWrite id k f s).2 = false := by
+  unfold pWrite
+  split <;> simp [hasStop, hasStartOk, writesGarbage, hid]
+
+theorem pStop_c13 (f : Faults) (s : PState) :
+    hasStartOk (pStop f s).2 = false ∧ writesGarbage (pStop f s).2 = false ∧
+    (pStop f s).1.isRec = (s.isRec && !hasStop (pStop f s).2) := by
+  unfold pStop stopRecording
+  repeat' split
+  all_goals simp_all [hasStop, hasStartOk, writesGarbage]
+
+theorem pcr_c13 (c : PCfg) (s : PState) (id : Nat) (f : Faults) (hid : id ≠ garbage) :
+    hasStop (processConstantRecorder c s id f).2 = false ∧
+    hasStartOk (processConstantRecorder c s id f).2 = false ∧
+    writesGarbage (processConstantRecorder c s id f).2 = false := by
+  simp only [processConstantRecorder]
+  repeat' split
+  all_goals simp [hasStop, hasStartOk, writesGarbage, hid]
+
+theorem psn_c13 (c : PCfg) (s : PState) (id : Nat) (f : Faults) (hid : id ≠ garbage) :
+    hasStop (processSnapshot c s id f).2 = false ∧
+    hasStartOk (processSnapshot c s id f).2 = false ∧
+    writesGarbage (processSnapshot c s id f).2 = false := by
+  simp only [processSnapshot]
+  repeat' split
+  all_goals simp [hasStop, hasStartOk, writesGarbage, hid]
+
+theorem processFrame_c13 (c : PCfg) (s : PState) (motion : Bool) (f : Faults)
+    (hg : Good c s) (hn : s.n < garbage) :
+    (processFrame c s motion f).1.isRec =
+      ((s.isRec || hasStartOk (processFrame c s motion f).2) && !hasStop (processFrame c s motion f).2) ∧
+    writesGarbage (processFrame c s motion f).2 = false := by
+  have hid : s.n ≠ garbage := by omega
+  obtain ⟨lo, hlo, hh⟩ := good_history hg
+  have hh' : ∀ h, ({ s with ring := s.ring.write s.n } : PState).ring.history = some h →
+      ∀ id ∈ h, id ≠ garbage := by
+    intro h heq id hmem
+    simp only [hh, Option.some.injEq] at heq
+    subst heq
+    rw [List.mem_range'_1] at hmem
+    omega
+  rw [processFrame_eq, process_eq]
+  simp only [andThen_fst, andThen_snd, hasStop_append, hasStartOk_append, writesGarbage_append]
+  obtain ⟨d1, d2, d3⟩ := pDetect_c13 c { s with ring := s.ring.write s.n } motion f hh'
+  generalize pDetect c { s with ring := s.ring.write s.n } motion f = d at *
+  obtain ⟨w1, w2, w3⟩ := pWrite_c13 s.n d.2 f d.1.1 hid
+  have w4 := (pWrite_fields s.n d.2 f d.1.1).2.2.1
+  generalize pWrite s.n d.2 f d.1.1 = w at *
+  obtain ⟨s1, s2, s3⟩ := pStop_c13 f w.1
+  generalize pStop f w.1 = st at *
+  obtain ⟨c1, c2, c3⟩ := pcr_c13 c st.1 s.n f hid
+  obtain ⟨k, hk⟩ := pcr_shape c st.1 s.n f
+  generalize processConstantRecorder c st.1 s.n f = cr at *
+  obtain ⟨n1, n2, n3⟩ := psn_c13 c cr.1 s.n f hid
+  obtain ⟨a, b, k', hsn⟩ := psn_shape c cr.1 s.n f
+  generalize processSnapshot c cr.1 s.n f = sn at *
+  rw [hsn, hk]
+  simp [d1, d2, d3, w1, w2, w3, w4, s1, s2, s3, c1, c2, c3, n1, n2, n3]
+
+def Rel13 (s : PState) (m : M13) : Prop := m.openRec = s.isRec ∧ m.fails = []
+
+theorem step_rel13 (c : PCfg) (s : PState) (m : M13) (e : Ev) (hg : Good c s) (hn : s.n < garbage)
+    (hr : Rel13 s m) : Rel13 (PState.step c s e).1 (M13.step m ⟨e, (PState.step c s e).2⟩) := by
+  obtain ⟨h1, h2⟩ := hr
+  cases e with
+  | frame mo f =>
+    obtain ⟨a, b⟩ := processFrame_c13 c s mo f hg hn
+    simp only [M13.step, PState.step, Rel13]
+    rw [a, b, h1, h2]
+    simp
+  | bad f =>
+    simp only [M13.step, PState.step, Rel13, processBad, stopRecording, stopConstantRecorder]
+    cases hrec : s.isRec <;> cases hc : c.constOn <;>
+      simp [h1, h2, hrec, anyWrite, writesGarbage, hasStop, hasStartAny, hasStartOk]
+  | reset f =>
+    simp only [M13.step, PState.step, Rel13, stopRecording]
+    cases hrec : s.isRec <;> simp [h1, h2, hrec, writesGarbage, hasStop, hasStartOk]
+  | testReq =>
+    simp [M13.step, PState.step, Rel13, h1, h2, writesGarbage, hasStop, hasStartOk]
+
+theorem step_n_le (c : PCfg) (s : PState) (e : Ev) : (PState.step c s e).1.n ≤ s.n + 1 := by
+  cases e with
+  | frame mo f => simp only [PState.step]; rw [(processFrame_fields c s mo f).2]; exact Nat.le_refl _
+  | bad f =>
+    simp only [PState.step, processBad, andThen_fst]
+    obtain ⟨k, hk⟩ := scr_shape c (stopRecording { s with ring := s.ring.write garbage } f.mStop).1 f
+    have hf := stopRecording_fields { s with ring := s.ring.write garbage } f.mStop
+    rw [hk]
+    simp only [hf.2.1]; omega
+  | reset f =>
+    simp only [PState.step]
+    rw [(stopRecording_fields s f.mStop).2.1]; omega
+  | testReq => simp [PState.step]
+
+/-- C13 for every run of at most `garbage` events (ids are frame indices; the sentinel id
+`garbage = 4000000000` must stay unused for the monitor's "rejected content written" check to be
+meaningful) -/
+theorem c13_bounded (c : PCfg) (hK : 0 < c.K) (evs : List Ev) (hlen : evs.length ≤ garbage) :
+    monC13 (PState.trace c (PState.init c) evs) = [] := by
+  have h := trace_fold_inv c M13.step
+    (fun k s m => Good c s ∧ s.n ≤ k ∧ (k ≤ garbage → Rel13 s m))
+    (fun k s m e hi => by
+      obtain ⟨hg, hn, hr⟩ := hi
+      refine ⟨good_step c s e hg, ?_, ?_⟩
+      · have := step_n_le c s e; omega
+      · intro hk
+        exact step_rel13 c s m e hg (by omega) (hr (by omega)))
+    evs 0 (PState.init c) {} ⟨good_init c hK, Nat.le_refl _, fun _ => ⟨rfl, rfl⟩⟩
+  exact (h.2.2 (by omega)).2
 
 end TR
